@@ -25,6 +25,7 @@ ASSUMPTIONS = [
     "the worker process is already warm from earlier cases: 'before the history' means 'first time in this case'",
 ]
 HEALTH = {"history_with_failure": 0.12, "fresh_process": 16}
+FLAKY_IS_VIOLATION = True      # a leak changes the process: the same history run twice in one process need not fail twice
 EXHAUSTIVE = {}
 
 _prog = st.one_of(c13._valid, c13._mutation, c13._tokens)
